@@ -43,6 +43,8 @@ type inst struct {
 	CQT  imat    `json:"CQT"`
 	CR   imat    `json:"CR"`
 	Qidx []int   `json:"qidx"`
+	XMN  imat    `json:"XMN"`
+	BMN  imat    `json:"BMN"`
 	Deep bool    `json:"deep"`
 	PI   imat    `json:"PI"`
 	AI   imat    `json:"AI"`
